@@ -8,6 +8,7 @@ optional whitespace), `spec412`, `spec304`. Dates are whole seconds as `httpdate
 (a parameter of the model); an entity modification time is `(secs, nanos)`.
 -/
 import HttpServeModel.Lemmas.CondLemmas
+import HttpServeModel.Lemmas.Clock
 
 namespace HS
 
@@ -71,6 +72,14 @@ theorem C04_list_iteration (ts : List (Tag × Bytes)) (h : TagsWf ts) :
 theorem C04_comparison_functions (a b : Tag) :
     strongEq a.render b.render = a.strongEq b ∧ weakEq a.render b.render = a.weakEq b :=
   ⟨strongEq_render a b, weakEq_render a b⟩
+
+/-- The conditions are evaluated against the entity, never against the clock: status, body plan,
+entity calls and every header other than Date and Last-Modified are the same whenever the request
+is served — also for an entity whose modification time lies in the future, where a date
+condition between now and that time is still compared with the modification time itself. -/
+theorem C04_independent_of_the_clock (q : Req) (e : Ent) (now1 now2 : Nat) :
+    stripClockR (serve q e now1) = stripClockR (serve q e now2) :=
+  serve_clock_independent q e now1 now2
 
 /-- Non-vacuity: a weak entity tag containing ", ", a two-element If-None-Match list, sub-second
 mtime: well-formed, and the rule says 304. -/
